@@ -373,35 +373,45 @@ theorem keeps_fileHeader (chk : Bool) (onFirst : RErr → P) (onErr : Err → P)
     all_goals first | exact h3 _ | exact hk _
 
 omit hQ in
-/-- a single `Decode()` of a fresh decoder (`fuel = 1`): every failing request ends the run with that error -/
-theorem keeps_decodeOnce (chk : Bool) (evs : List Ev) :
-    Keeps (fun e o => o.status = some (.io e)) (decodeLoop chk 1 true evs) := by
-  have hQ : ∀ (e : RErr) (evs : List Ev), (fun e (o : Out) => o.status = some (.io e)) e { evs := evs, status := some (.io e) } :=
-    fun _ _ => rfl
-  simp only [decodeLoop]
-  refine keeps_fileHeader chk _ _ _ (fun e => ⟨_, rfl, rfl⟩) (fun e => ⟨_, rfl, rfl⟩) (fun e => Keeps.ret _) (fun h => ?_)
-  refine keeps_messages hQ chk _ _ _ _ (fun st' => ?_)
-  exact keeps_fileCrc hQ chk st' _ (fun c => Keeps.ret _)
+/-- `firstReaderErr` only ever reports failures of the reader itself -/
+theorem firstReaderErr_isFailure {α : Type} (p : Prog α) : ∀ (b : RB) (e : RErr), firstReaderErr p b = some e → e.isReaderFailure = true := by
+  induction p with
+  | ret a => intro b e h; simp [firstReaderErr] at h
+  | read n k ih =>
+    intro b e h
+    simp only [firstReaderErr] at h
+    cases hr : b.readN n with
+    | mk r b' =>
+      rw [hr] at h
+      cases r with
+      | ok bs => exact ih _ b' e h
+      | err e' =>
+        simp only at h
+        by_cases hf : e'.isReaderFailure = true
+        · simp only [hf, if_true, Option.some.injEq] at h; subst h; exact hf
+        · simp only [hf, if_false] at h; exact ih _ b' e h
+      | panic => simp at h
 
 omit hQ in
-/-- the `Next`/`Decode` loop: every failing request ends the run with that error either returned or kept as the
-decoder's sticky error (`swallowed`) while the loop ends silently -/
+/-- the `Next`/`Decode` loop: every request that fails with a failure of the reader ends the run with that error -/
 theorem keeps_decodeLoop (chk : Bool) (fuel : Nat) : ∀ (first : Bool) (evs : List Ev),
-    Keeps (fun e o => o.status = some (.io e) ∨ (o.status = none ∧ o.swallowed = some (.io e))) (decodeLoop chk fuel first evs) := by
-  have hQ : ∀ (e : RErr) (evs : List Ev), (fun e (o : Out) => o.status = some (.io e) ∨ (o.status = none ∧ o.swallowed = some (.io e)))
-      e { evs := evs, status := some (.io e) } := fun _ _ => Or.inl rfl
+    Keeps (fun e o => e.isReaderFailure = true → o.status = some (.io e)) (decodeLoop chk fuel first evs) := by
+  have hQ : ∀ (e : RErr) (evs : List Ev), (fun e (o : Out) => e.isReaderFailure = true → o.status = some (.io e))
+      e { evs := evs, status := some (.io e) } := fun _ _ _ => rfl
   induction fuel with
   | zero => intro first evs; exact Keeps.ret _
   | succ fuel ih =>
     intro first evs
     simp only [decodeLoop]
     refine keeps_fileHeader chk _ _ _ ?_ ?_ ?_ (fun h => ?_)
-    · intro e; cases first
-      · exact ⟨_, rfl, Or.inr ⟨rfl, rfl⟩⟩
-      · exact ⟨_, rfl, Or.inl rfl⟩
-    · intro e; cases first
-      · exact ⟨_, rfl, Or.inr ⟨rfl, rfl⟩⟩
-      · exact ⟨_, rfl, Or.inl rfl⟩
+    · intro e
+      cases first <;> cases e <;> first
+        | exact ⟨_, rfl, fun _ => rfl⟩
+        | exact ⟨_, rfl, fun h => by cases h⟩
+    · intro e
+      cases first <;> cases e <;> first
+        | exact ⟨_, rfl, fun _ => rfl⟩
+        | exact ⟨_, rfl, fun h => by cases h⟩
     · intro e; split <;> exact Keeps.ret _
     · refine keeps_messages hQ chk _ _ _ _ (fun st' => ?_)
       exact keeps_fileCrc hQ chk st' _ (fun c => ih false _)
